@@ -97,6 +97,14 @@ def main():
                 discharged += 1
             else:
                 broken.append({"kind": "theorem", "what": f"axiom audit of {t}", "detail": a})
+        if tier == "thorough":
+            # independent re-check of the compiled proof modules (declarations replayed through the kernel by leanchecker)
+            for m_ in mod.LEAN_MODULES:
+                rc_l, out_l = vlib.sh(["lake", "env", "leanchecker", m_], cwd=vlib.LEAN, timeout=1800)
+                if rc_l != 0:
+                    broken.append({"kind": "theorem", "what": f"leanchecker {m_}", "detail": out_l[-600:]})
+                else:
+                    notes.append(f"leanchecker {m_}: ok")
 
     # ---- 2 tie: rebuild harness from /repo, correspondence ------------------------------
     okc, outc = vlib.cargo_build()
@@ -148,6 +156,8 @@ def main():
         ri = Result(i)
         k = ri.kind if ri.kind != "berr" else i
         hist[k] = hist.get(k, 0) + 1
+        if i == "crash-skipped":      # not run: the runner died too often before reaching this case
+            continue
         if "bad-op" in m or "bad-op" in i or m == "missing" or i == "missing":
             internal.append((c["line"], m, i))
             continue
@@ -171,6 +181,8 @@ def main():
             if exp and i != exp:
                 oracle_fail.append({"line": c["line"], "impl": i, "required": f"corpus case {c['meta']['corpus']}: result must be `{exp}`"})
             continue
+        if i == "crash-skipped":
+            continue
         try:
             why = mod.oracle(c, Result(i))
         except Exception as e:  # an oracle must never crash silently
@@ -179,12 +191,18 @@ def main():
             oracle_fail.append({"line": c["line"], "impl": i, "required": why, "meta": {k: str(v)[:300] for k, v in c.get("meta", {}).items()}})
     extra_eval = 0
     if hasattr(mod, "extra"):
-        ex = mod.extra(rng, tier)
+        try:
+            ex = mod.extra(rng, tier)
+        except vlib.BuildError as e:
+            # a harness subcommand (in-process runs on the real crate) died: the crate brought the process down
+            ex = {"failures": [{"line": "", "impl": str(e)[-600:],
+                                "required": "the in-process run of this property's scenario must complete (process died: signal/abort)"}]}
         extra_eval = ex.get("evaluations", 0)
         nontrivial += ex.get("nontrivial", 0)
         oracle_fail += ex.get("failures", [])
         notes += ex.get("notes", [])
         hist.update({f"extra:{k}": v for k, v in ex.get("hist", {}).items()})
+    hist.update({f"f64_model_vs_crate:{k}": v for k, v in vlib.F_STATS.items()})
 
     # ---- 4 verdict -----------------------------------------------------------------------
     known = load_known(pid)
